@@ -52,6 +52,8 @@ type Layout struct {
 	// TrexStale (with TfhdDur and audio): the audio init segment's trex box announces twice the real default sample duration;
 	// every fragment overrides it in its tfhd, which takes precedence
 	TrexStale bool `json:"trex_stale,omitempty"`
+	// VCodec: @codecs of the video representations in the VoD MPD if not "avc1.64001e" (e.g. "avc3.64001e": in-band parameter sets)
+	VCodec string `json:"vcodec,omitempty"`
 }
 
 type Clock struct{ Timescale, FrameDur int }
@@ -583,6 +585,13 @@ func (l Layout) Materialize(root string) (string, error) {
 	return name, nil
 }
 
+func (l Layout) vcodec() string {
+	if l.VCodec != "" {
+		return l.VCodec
+	}
+	return "avc1.64001e"
+}
+
 func (l Layout) mpd(vTL, aTL, tTL string) string {
 	loopMS := l.LoopTicks() * 1000 / l.VTimescale
 	dur := fmt.Sprintf("PT%d.%03dS", loopMS/1000, loopMS%1000)
@@ -620,9 +629,9 @@ func (l Layout) mpd(vTL, aTL, tTL string) string {
 	}
 	fmt.Fprintf(&b, `    <AdaptationSet contentType="video" mimeType="video/mp4" segmentAlignment="true" startWithSAP="1">
       %s
-      <Representation id="V300" codecs="avc1.64001e" bandwidth="300000" width="640" height="360"/>%s
+      <Representation id="V300" codecs="%s" bandwidth="300000" width="640" height="360"/>%s
     </AdaptationSet>
-`, tmpl(l.VTimescale, l.LoopTicks()/n, vTL), map[bool]string{true: "\n      <Representation id=\"V600\" codecs=\"avc1.64001e\" bandwidth=\"600000\" width=\"640\" height=\"360\"/>", false: ""}[l.V2Extra != 0])
+`, tmpl(l.VTimescale, l.LoopTicks()/n, vTL), l.vcodec(), map[bool]string{true: "\n      <Representation id=\"V600\" codecs=\"" + l.vcodec() + "\" bandwidth=\"600000\" width=\"640\" height=\"360\"/>", false: ""}[l.V2Extra != 0])
 	if l.Text {
 		fmt.Fprintf(&b, `    <AdaptationSet contentType="text" mimeType="application/mp4" lang="en" segmentAlignment="true">
       <Role schemeIdUri="urn:mpeg:dash:role:2011" value="subtitle"/>
